@@ -59,6 +59,8 @@ def drive(sc):
     events = []
     fclass, failAt = cfg["fclass"], cfg["failAt"]
     all_fail = fclass == "allnan" or (fclass == "filter" and cfg["flt"].startswith("cvar"))
+    import zlib as _zlib
+    nan_in_constraint = _zlib.crc32(("nan" + str(cfg)).encode()) % 2 == 1
 
     def evaluator(variables, context):
         state["call"] += 1
@@ -76,15 +78,17 @@ def drive(sc):
         con = variables.sum(axis=1, keepdims=True)
         if idx == failAt:
             real = context.realizations
+            # a failure is a NaN in ANY value of the row: every second scenario reports it in the constraint only
+            tgt = con if nan_in_constraint else obj
             if fclass in ("thr", "filter", "est", "allnan"):
                 bad = unpert & (np.ones_like(real, dtype=bool) if all_fail else real < 2)
-                obj[bad] = np.nan
+                tgt[bad] = np.nan
             elif fclass == "pert" and perts is not None:
-                obj[(perts == 0)] = np.nan
+                tgt[(perts == 0)] = np.nan
             elif fclass == "estpert" and perts is not None:
-                obj[(perts == 0) & (real < 2)] = np.nan          # realizations 0 and 1 lose a perturbation: one realization is left
+                tgt[(perts == 0) & (real < 2)] = np.nan          # realizations 0 and 1 lose a perturbation: one realization is left
             elif fclass == "allnanpert" and perts is not None:
-                obj[perts >= 0] = np.nan
+                tgt[perts >= 0] = np.nan
         return EvaluatorResult(objectives=obj, constraints=con)
 
     def finished(event):
